@@ -1059,6 +1059,26 @@ class SubsFamily(ReorgFamily):
                              delay=rng.choice([2.0, 6.0, 12.0, 25.0])))
         return dict(op='on_rpc', method=rng.choice(self.RPC_METHODS), skip=rng.randrange(3), then=then)
 
+    def child_across_same_height_reorg(self, rng, k, plan):
+        """motif: a new unconfirmed child of a transaction of the tip block whose raw-transaction fetch is slow; while
+        it is under way the daemon moves to a competing tip of the same height that contains the same transactions
+        and the operator's reorg makes the server follow, the download of the competing block being slow too: the
+        tracker looks the parent output up after the tip was undone and before its replacement is indexed - and the
+        height is the same afterwards."""
+        k['orphans_return'] = True
+        a = rng.choice([6.0, 10.0, 15.0])
+        b = rng.choice([15.0, 25.0, 40.0])
+        t1 = round(rng.uniform(0.5, 4.0), 2)
+        plan.append(dict(op='mine', n=1, ntx=[rng.randint(3, 7)], seed=rng.getrandbits(32)))
+        plan.append(dict(op='settle'))
+        plan.append(dict(op='slow', method='getrawtransaction', delay=a))
+        plan.append(dict(op='mp_add', n=1, recent=True, seed=rng.getrandbits(32)))
+        plan.append(dict(op='fork', depth=1, extra=0, ntx=[0], remine=1.0, at=t1, seed=rng.getrandbits(32)))
+        plan.append(dict(op='slow', method='rest', delay=b))
+        plan.append(dict(op='admin_reorg', n=1, at=round(t1 + rng.uniform(0.3, 1.5), 2)))
+        plan.append(dict(op='wait', dt=a + b + 10.0))
+        plan.append(dict(op='settle'))
+
     def gen(self, rng, tier, prop):
         k, plan = self.base(rng, tier)
         if rng.random() < 0.35:
@@ -1135,6 +1155,9 @@ class SubsFamily(ReorgFamily):
                 nclients += 3
                 plan.append(dict(op='wait', dt=rng.choice([20.0, 40.0])))
                 plan.append(dict(op='settle'))
+                continue
+            if rng.random() < 0.08:
+                self.child_across_same_height_reorg(rng, k, plan)
                 continue
             if rng.random() < 0.12:
                 # motif: a new block, the header read at the start of its notification round - driven by the mempool
@@ -1269,6 +1292,8 @@ class MempoolFamily(SubsFamily):
                 plan.append(dict(op='mp_add', n=rng.choice([60, 120, 200]), chain=1.0, linear=True, seed=rng.getrandbits(32)))
                 plan.append(dict(op='wait', dt=rng.choice([8.0, 16.0])))
                 plan.append(dict(op='settle'))
+            if rng.random() < 0.08:
+                self.child_across_same_height_reorg(rng, k, plan)
             if rng.random() < 0.15:
                 # motif: clients keep asking for confirmed histories / unspent lists (worker-thread reads of the same
                 # files and tables) while the tracker looks up the confirmed outputs that new mempool transactions
@@ -1339,6 +1364,8 @@ class StaleFamily(SubsFamily):
                 ops.append(q)
             rng.shuffle(ops)
             plan.extend(ops)
+            if rng.random() < 0.12:
+                self.child_across_same_height_reorg(rng, k, plan)
             if rng.random() < 0.3:
                 # motif: the same script-hash request over and over (several clients) while a block that touches
                 # the script is indexed and notified and the reads behind those requests are slow: requests that
